@@ -3,7 +3,12 @@
 The patterns are taken live from athlib.codes on every run and parsed with the interpreter's own
 re._parser.  Supported constructs: literals, classes (ranges, \\d, \\s, negation), ANY, bounded and
 unbounded greedy/lazy repeats, groups, alternation, conditionals on a group (?(n)yes|no), ^ / \\A, $ (Python
-semantics: at the end or just before a final newline) and \\Z.  Anything else -> MachineryError (exit 2).
+semantics: at the end or just before a final newline) and \\Z; possessive repeats of a single character set
+(`\\d++`, `\\s*+`, `[xX]?+`: exact - the repeat takes all it can and the next symbol must not belong to the set unless
+the upper bound is reached).  Other atomic constructs (`(?>...)`, possessive repeats of longer bodies) are translated as
+their backtracking counterparts and the pattern is listed in tr['approx']: its automaton over-approximates the language
+and callers must not treat a disagreement with `re` on such a pattern as their own fault.  Anything else ->
+MachineryError (exit 2).
 
 Acceptance is that of `pattern.match(s) is not None` (anchored at the start, prefix match).
 """
@@ -150,6 +155,8 @@ def _expand_conditions(nfa, start, final, refs):
                     out.eps.append((nid(a, G), nid(b, G), ''))
                 elif tag == 'G-' and g not in G:
                     out.eps.append((nid(a, G), nid(b, G), ''))
+                elif tag == 'N':
+                    out.eps.append((nid(a, G), nid(b, G), k))
             else:
                 out.eps.append((nid(a, G), nid(b, G), k))
     f = out.new()
@@ -158,9 +165,11 @@ def _expand_conditions(nfa, start, final, refs):
     return out, s0, f
 
 
-def build(pattern_text, flags, atoms):
+def build(pattern_text, flags, atoms, approx=None):
     tree = sre_parse.parse(pattern_text, flags)
     nfa = NFA()
+    if approx is None:
+        approx = []
     refs = _cond_groups(tree, set())
 
     def atom_index(cs):
@@ -207,6 +216,37 @@ def build(pattern_text, flags, atoms):
                 e = seq(alt, a)
                 nfa.eps.append((e, t, ''))
             return t
+        if op is getattr(sre_c, 'POSSESSIVE_REPEAT', None):
+            lo, hi, sub = av
+            if len(sub) == 1 and sub[0][0] in (sre_c.LITERAL, sre_c.NOT_LITERAL, sre_c.ANY, sre_c.IN):
+                # exact: as many as possible; leaving the loop before the upper bound needs "next symbol not in the set"
+                ai = atom_index(charset_of(sub[0][0], sub[0][1], flags))
+                cur = s
+                for _ in range(lo):
+                    t = nfa.new()
+                    nfa.sym.append((cur, ai, t))
+                    cur = t
+                out = nfa.new()
+                if hi is sre_c.MAXREPEAT:
+                    a = nfa.new()
+                    nfa.eps.append((cur, a, ''))
+                    nfa.sym.append((a, ai, a))
+                    nfa.eps.append((a, out, ('N', ai)))
+                    return out
+                if hi - lo > 64:
+                    raise MachineryError('repeat bound too large')
+                for _ in range(hi - lo):
+                    nfa.eps.append((cur, out, ('N', ai)))
+                    t = nfa.new()
+                    nfa.sym.append((cur, ai, t))
+                    cur = t
+                nfa.eps.append((cur, out, ''))
+                return out
+            approx.append('possessive repeat')
+            return node(sre_c.MAX_REPEAT, av, s)
+        if op is getattr(sre_c, 'ATOMIC_GROUP', None):
+            approx.append('atomic group')
+            return seq(av, s)
         if op in (sre_c.MAX_REPEAT, sre_c.MIN_REPEAT):
             lo, hi, sub = av
             cur = s
@@ -247,9 +287,10 @@ def build(pattern_text, flags, atoms):
 
 
 def closure(nfa, states, kinds):
+    """plain epsilon closure; ('N', atom) guard edges count as passable"""
     adj = {}
     for a, b, k in nfa.eps:
-        if k in kinds:
+        if k in kinds or (isinstance(k, tuple) and k[0] == 'N'):
             adj.setdefault(a, []).append(b)
     seen = set(states)
     stack = list(states)
@@ -262,11 +303,32 @@ def closure(nfa, states, kinds):
     return seen
 
 
+def closure_g(nfa, items, kinds):
+    """epsilon closure over (state, F) pairs: F = the atoms the NEXT symbol must not belong to (possessive repeats)"""
+    adj = {}
+    for a, b, k in nfa.eps:
+        if k in kinds:
+            adj.setdefault(a, []).append((b, None))
+        elif isinstance(k, tuple) and k[0] == 'N':
+            adj.setdefault(a, []).append((b, k[1]))
+    seen = set(items)
+    stack = list(items)
+    while stack:
+        x, F = stack.pop()
+        for y, g in adj.get(x, ()):
+            it = (y, F if g is None else F | {g})
+            if it not in seen:
+                seen.add(it)
+                stack.append(it)
+    return seen
+
+
 class EpsFree(object):
-    """states 1..n (1 = start); delta[q][atom] = set of states; fin_noend / fin_end flags."""
+    """states 1..n (1 = start); delta[q][(atom, F)] = set of states (F: atoms the symbol must NOT belong to);
+    fin_noend / fin_end / fin_endnl flags."""
 
 
-def eps_free(nfa, start, final):
+def eps_free(nfa, start, final, atoms=None, approx=None):
     symout = {}
     for a, ai, b in nfa.sym:
         symout.setdefault(a, []).append((ai, b))
@@ -274,6 +336,7 @@ def eps_free(nfa, start, final):
     after_end = closure(nfa, [b for a, b, k in nfa.eps if k in ('E', 'Z')], ('', 'E', 'Z', 'B'))
     if any(q in symout for q in after_end):
         raise MachineryError('pattern consumes input after $: not supported')
+    cs_of = {i: cs for i, cs in (atoms or {}).values()}
     kernel = [start] + sorted({b for _, _, b in nfa.sym})
     index = {q: i + 1 for i, q in enumerate(kernel)}
     ef = EpsFree()
@@ -282,18 +345,24 @@ def eps_free(nfa, start, final):
     ef.fin_noend = set()
     ef.fin_end = set()       # accepting if the string ends here (`$` or `\Z` satisfied)
     ef.fin_endnl = set()     # accepting if exactly one newline follows and ends the string (`$` only)
+    E0 = frozenset()
     for q in kernel:
-        cl = closure(nfa, [q], ('', 'B') if q == start else ('',))
-        if final in cl:
+        cl = closure_g(nfa, [(q, E0)], ('', 'B') if q == start else ('',))
+        fins = [F for x, F in cl if x == final]
+        if fins:
             ef.fin_noend.add(index[q])
-        if final in closure(nfa, cl, ('', 'E', 'Z')):
+            if all(F for F in fins) and approx is not None:
+                # a match may end here only if the next symbol is outside F: not expressible as a state flag
+                approx.append('possessive repeat at the end of an unanchored pattern')
+        if any(x == final for x, F in closure_g(nfa, cl, ('', 'E', 'Z'))):
             ef.fin_end.add(index[q])
-        if final in closure(nfa, cl, ('', 'E')):
+        # `$` before a final newline: the pending guards must admit '\n' as the next symbol
+        if any(x == final and not any(cs_of[f].contains(10) for f in F) for x, F in closure_g(nfa, cl, ('', 'E'))):
             ef.fin_endnl.add(index[q])
         d = {}
-        for x in cl:
+        for x, F in cl:
             for ai, b in symout.get(x, ()):
-                d.setdefault(ai, set()).add(index[b])
+                d.setdefault((ai, F), set()).add(index[b])
         ef.delta[index[q]] = d
     # a start state that is also re-entered after consuming would wrongly allow ^ later: Thompson
     # construction never targets `start`, so this cannot happen.
@@ -358,26 +427,32 @@ def translate(patterns, extra_split=()):
         extra_split = tuple(extra_split) + ({10},)          # '\n' is always a class of its own (the `$` semantics)
     atoms = {}
     nfas = {}
+    approx = {}
     for name, pat in patterns.items():
         flags = pat.flags & ~re.UNICODE
         if flags & ~(re.IGNORECASE | re.DOTALL):
             raise MachineryError('unsupported flags on %s: %s' % (name, pat.flags))
-        nfa, s, f = build(pat.pattern, pat.flags, atoms)
-        nfas[name] = eps_free(nfa, s, f)
+        why = []
+        nfa, s, f = build(pat.pattern, pat.flags, atoms, why)
+        nfas[name] = eps_free(nfa, s, f, atoms, why)
+        if why:
+            approx[name] = sorted(set(why))
     classes, atom_classes = partition(atoms, extra_split)
     for name, ef in nfas.items():
         ef.cdelta = {}
         for q, d in ef.delta.items():
             cd = {}
-            for ai, tg in d.items():
+            for (ai, F), tg in d.items():
+                banned = set().union(*[atom_classes[f] for f in F]) if F else ()
                 for c in atom_classes[ai]:
-                    cd.setdefault(c, set()).update(tg)
+                    if c not in banned:
+                        cd.setdefault(c, set()).update(tg)
             ef.cdelta[q] = cd
     nl = next((k + 1 for k, c in enumerate(classes) if 10 in c['members']), 0)
     if nl and classes[nl - 1]['size'] != 1:
         # '\n' must be alone in its class for the `$` semantics; force a split
         return translate(patterns, tuple(extra_split) + ({10},))
-    return {'classes': classes, 'nfas': nfas, 'nl': nl, 'names': list(patterns.keys()), 'other': partition.other}
+    return {'classes': classes, 'nfas': nfas, 'nl': nl, 'names': list(patterns.keys()), 'other': partition.other, 'approx': approx}
 
 
 def tla_module(tr, modname='EventCodesNFA'):
